@@ -77,6 +77,17 @@ class line_budget_mode:
         _MODE[0] = self.prev
 
 
+class timer_mode:
+    """context manager: bound a (long, bulk) library call by CPU time even inside a replay"""
+
+    def __enter__(self):
+        self.prev = _MODE[0]
+        _MODE[0] = "timer"
+
+    def __exit__(self, *a):
+        _MODE[0] = self.prev
+
+
 def call(fn, *args, **kwargs):
     """Run one library call under the watchdog.
 
